@@ -6,7 +6,9 @@ OPT = {'spell_attr': True, 'spell_class': True, 'serialize': True, 'spell_ident'
 VALS = {'STRING': {'s:a', 's:b'}, 'UNIQUE_ID': {'u:0', 'u:9'}, 'INTEGER': {'i:7'}, 'BOOLEAN': {'b:1'}}
 
 
-def random_runs(schema, rnd, tier):
+def random_runs(schema, rnd, tier, refs=False):
+    """refs: creation calls also give referential attributes (by keyword, under the rotating spelling): values that match
+    an instance, that match none, null"""
     runs = []
     for _ in range(12 if tier == 'quick' else 200):
         born = {c: 0 for c in schema['classes']}
@@ -20,6 +22,10 @@ def random_runs(schema, rnd, tier):
                 live.append((c, born[c]))
                 plain = metagen.plain_attrs(schema, c)
                 kw = {n: metagen.value_for(schema, c, n, rnd, 6) for n in plain if rnd.random() < 0.4}
+                if refs:
+                    for n in [a['n'] for a in schema['attrs'][c] if a['n'] not in plain]:
+                        if rnd.random() < 0.5:
+                            kw[n] = metagen.value_for(schema, c, n, rnd, 6)
                 acts.append(['New', c, [], kw])
             elif k < 0.6:
                 c, i = rnd.choice(live)
@@ -29,8 +35,13 @@ def random_runs(schema, rnd, tier):
                 acts.append(['SetAttr', c, i, n, v])
             elif k < 0.75:
                 c, i = rnd.choice(live)
-                n = rnd.choice([a['n'] for a in schema['attrs'][c]])
-                acts.append(['DelAttr', c, i, n])
+                names = [a['n'] for a in schema['attrs'][c]]
+                if refs:
+                    # (a creation that gives referential values reads the identifying attributes of the instances it may
+                    # refer to: those stay in place in these histories)
+                    names = [n for n in names if not any(x['tgt'] == c and n in x['tkeys'] for x in schema['assocs'])] or names[:0]
+                if names:
+                    acts.append(['DelAttr', c, i, rnd.choice(names)])
             elif k < 0.8:
                 x = rnd.choice(live)
                 live.remove(x)
@@ -61,6 +72,11 @@ def plans():
          'random': random_runs},
         {'name': 'keywords', 'schema': 'keywords', 'model': False, 'bound': 2, 'opt': OPT, 'obs': obs,
          'random': random_runs},
+        # referential values given to the constructor (matching, dangling, null), then read under every spelling
+        {'name': 'spelling_refs', 'schema': 'spelling', 'model': False, 'bound': 2, 'opt': OPT, 'obs': obs,
+         'random': lambda schema, rnd, tier: random_runs(schema, rnd, tier, refs=True)},
+        {'name': 'ref_middle_refs', 'schema': 'ref_middle', 'model': False, 'bound': 2, 'opt': OPT, 'obs': obs,
+         'random': lambda schema, rnd, tier: random_runs(schema, rnd, tier, refs=True)},
     ] + [
         # class names under other spellings in navigation: directly, across an association class in one step, with phrases
         {'name': name + '_nav', 'schema': name, 'model': False, 'bound': 2, 'opt': OPT, 'obs': obs_nav, 'random': random_runs}
@@ -82,4 +98,6 @@ def check(tier, replay_path=None):
             'the five spellings cover all four case patterns of the two-letter name "Id" and three to five patterns of longer names',
             'deleting an attribute that holds no stored value (deleted already, or referential) may answer anything but must '
             'not change the model',
+            'in the histories whose creation calls give referential values (plans *_refs) the identifying attributes that '
+            'associations refer to are not deleted (the creation reads them)',
         ])
